@@ -104,7 +104,7 @@ def domains(scratch=None):
         STR: ["", "a", "ab", "é\n"],
         BYTES: [b"", b"a\xff", b"a"],
         LIST: [[], [1], [1, 2], [2, 1], [1, 1], (1, 2), (1, 2, 2)],
-        DICT: [{}, {"x": 1}, {"x": 1, "y": 2}, {"y": 1}, {"x": 2}],
+        DICT: [{}, {"x": 1}, {"x": 1, "y": 2}, {"y": 1}, {"x": 2}, {"x": 1, "y": 0}, {"z": None}, {"x": 0}],
         OBJ: [Obj(a=1, b=2), Obj(a=1, b=1), Obj(a=0, b=2)],
         EXC: [_exc_info(ValueError("a")), _exc_info(KeyError("b")), _exc_info(KeyboardInterrupt())],
         CALL: [_ret1, _raise_value, _raise_key, _warn_dep, _warn_two, _raise_kbi],
